@@ -23,12 +23,22 @@ pub fn gen_mode_graph_case(d: &mut Dec, thorough: bool, lookaheads: usize) -> Ca
         min_modes: if d.chance(192) { 2 } else { 1 },
         ..p
     };
-    let modes = gen::gen_modes(d, &p);
+    let mut modes = gen::gen_modes(d, &p);
+    let large = d.chance(p.large_per_256);
+    if large {
+        let mi = d.below(modes.len());
+        modes[mi] = gen::gen_large_mode(d, &p, gen::MODE_NAMES[mi]);
+        gen::add_many_transitions(d, &mut modes, mi);
+    }
     let mut case = Case {
         modes,
         ..Case::default()
     };
     let model = case.model();
+    if large {
+        case.inputs.push(gen::gen_long_input(d, &model, 100, 400));
+        return case;
+    }
     let mut input = gen::gen_input(d, &model, p.max_input_chars);
     if d.bool() {
         // longer inputs let histories travel through several modes
@@ -59,7 +69,7 @@ impl Check for C06 {
         for _ in 0..nops {
             case.ops.push(match d.weighted(&[12, 3, 3, 2, 2, 1, 1]) {
                 0 => Op::Next,
-                1 => Op::PeekN { n: d.below(5) },
+                1 => Op::PeekN { n: gen::gen_peek_n(d, 5) },
                 2 => Op::SetMode { m: d.below(nm) },
                 3 => Op::CurrentMode,
                 4 => Op::ModeName { i: d.below(nm + 2) },
